@@ -61,15 +61,28 @@ def inventory(P: Program) -> Dict[str, GlobalVar]:
                                 gv(f"{_attr_owner(P, P.classes[q], tt.attr)}.{tt.attr}", "class").writers.setdefault(f.qualname, []).append(n.lineno)
                             elif q in P.modules and q.startswith("vtlengine"):
                                 gv(f"{q}.{tt.attr}", "module").writers.setdefault(f.qualname, []).append(n.lineno)
-            # in-place mutation of module-level / class-level containers
+            # in-place mutation of module-level / class-level containers: mutating method call, subscript store / del
+            bases: List[ast.AST] = []
             if isinstance(n, ast.Call) and isinstance(n.func, ast.Attribute) and n.func.attr in MUTATORS:
-                base = n.func.value
+                bases.append(n.func.value)
+            if isinstance(n, (ast.Assign, ast.AugAssign, ast.AnnAssign, ast.Delete)):
+                tg = n.targets if isinstance(n, (ast.Assign, ast.Delete)) else [n.target]
+                for t in tg:
+                    for tt in (t.elts if isinstance(t, (ast.Tuple, ast.List)) else [t]):
+                        if isinstance(tt, ast.Subscript):
+                            bases.append(tt.value)
+            for base in bases:
                 q = None
-                if isinstance(base, ast.Name) and base.id in m.assigns and base.id not in f.params and not _is_local(f, base.id):
-                    q = f"{m.name}.{base.id}"
-                    init = src(m.assigns[base.id])
-                    if not _mutable_init(m.assigns[base.id]):
-                        q = None
+                init = ""
+                if isinstance(base, ast.Name) and base.id not in f.params and not _is_local(f, base.id):
+                    if base.id in m.assigns and _mutable_init(m.assigns[base.id]):
+                        q, init = f"{m.name}.{base.id}", src(m.assigns[base.id])
+                    else:
+                        iq = m.imports.get(base.id)
+                        if iq and "." in iq:
+                            head, last = iq.rsplit(".", 1)
+                            if head in P.modules and last in P.modules[head].assigns and _mutable_init(P.modules[head].assigns[last]):
+                                q, init = iq, src(P.modules[head].assigns[last])
                 elif isinstance(base, ast.Attribute) and isinstance(base.value, ast.Name) and base.value.id == "cls" and cls is not None:
                     got = P.lookup_attr(cls, base.attr)
                     if got is not None and _mutable_init(got[1]):
